@@ -176,6 +176,10 @@ func (e *Engine) globalPrelude(axioms []string) string {
 	}
 	for _, n := range e.cs.Spec.FunOrder {
 		f := e.cs.Spec.Funs[n]
+		if f.Reads != "" {
+			fmt.Fprintf(&sb, "(declare-fun %s (%s %s) %s)\n", f.Name, f.ReadsSort, strings.Join(f.Args, " "), f.Result)
+			continue
+		}
 		fmt.Fprintf(&sb, "(declare-fun %s (%s) %s)\n", f.Name, strings.Join(f.Args, " "), f.Result)
 	}
 	for _, n := range e.ufunOrd {
@@ -244,6 +248,7 @@ type FuncCtx struct {
 	frameGhost    map[string]bool
 	frameWhole    map[string]bool
 	curReach      string
+	cellObjs      map[types.Object]bool
 	atSites       map[string]int
 	atMatched     map[int]int
 	curEnv        *Env
@@ -404,6 +409,18 @@ func not(x string) string {
 		return "true"
 	}
 	return "(not " + x + ")"
+}
+
+// assumeReached records a fact about values of the current program point: it holds when the point is reached.
+func (fc *FuncCtx) assumeReached(f string) {
+	if f == "true" || f == "" {
+		return
+	}
+	if g := fc.curReach; g != "" && g != "true" {
+		fc.q.assume(fmt.Sprintf("(=> %s %s)", g, f))
+		return
+	}
+	fc.q.assume(f)
 }
 
 // wf returns the well-formedness fact every real value of the type satisfies.
@@ -1097,6 +1114,23 @@ func (fc *FuncCtx) namesAt(at ssa.Instruction) map[string]TV {
 	return vars
 }
 
+// cellOf: the source variable is held in an Alloc of the function (some DebugRef gives its address).
+func (fc *FuncCtx) cellOf(obj types.Object) bool {
+	if fc.cellObjs == nil {
+		fc.cellObjs = map[types.Object]bool{}
+		for _, b := range fc.fn.Blocks {
+			for _, in := range b.Instrs {
+				if d, ok := in.(*ssa.DebugRef); ok && d.IsAddr && d.Object() != nil {
+					if _, isAlloc := d.X.(*ssa.Alloc); isAlloc {
+						fc.cellObjs[d.Object()] = true
+					}
+				}
+			}
+		}
+	}
+	return fc.cellObjs[obj]
+}
+
 func (fc *FuncCtx) debugName(in ssa.Instruction, vars map[string]TV) {
 	if phi, ok := in.(*ssa.Phi); ok {
 		if tv, ok := fc.val[phi]; ok && phi.Comment != "" {
@@ -1135,6 +1169,11 @@ func (fc *FuncCtx) debugName(in ssa.Instruction, vars map[string]TV) {
 			if inner, ok := fc.val[mi.X]; ok {
 				tv = inner
 			}
+		}
+		if cur, ok := vars[obj.Name()]; ok && cur.L != nil && cur.T == "" && fc.cellOf(obj) {
+			// the variable lives in a cell (its address is taken): the name means the cell's current content,
+			// not the value it was initialised with
+			return
 		}
 		vars[obj.Name()] = tv
 	case *ssa.Alloc:
@@ -1604,6 +1643,7 @@ func (fc *FuncCtx) finish() {
 		return
 	}
 	fc.curInstr = nil
+	fc.curReach = exit
 	extra := fc.resultNames(con, res)
 	// named local variables whose address is taken (cells): readable in the exit state
 	seenName := map[string]int{}
